@@ -316,8 +316,29 @@ pub fn run(ctx: &mut Ctx, c07: bool) {
             if r == 0 {
                 docs.push(raw_random(&mut rng));
                 label = "raw-random".into();
+            } else if r == 3 && i % 40 == 3 {
+                // a long run of text with multi-byte characters at every alignment, optionally an
+                // invalid byte far from the start
+                let pad = rng.range(200, 5000);
+                let mut b: Vec<u8> = b"<a><b>".to_vec();
+                b.extend(std::iter::repeat(b'x').take(pad));
+                b.extend_from_slice(*rng.pick(&["\u{e9}", "\u{20ac}", "\u{1F600}", "z"]).as_bytes().to_vec().as_slice().chunks(8).next().as_ref().unwrap());
+                if rng.chance(1, 2) {
+                    b.push(0xFF);
+                    label = "long-text-invalid".into();
+                } else {
+                    label = "long-text".into();
+                }
+                b.extend_from_slice(b"tail</b></a>");
+                docs.push(b);
             } else if r == 1 {
-                let depth = if rng.chance(1, 4) { 200 } else { rng.range(1, 200) };
+                // the property bounds C07 at depth 200; a share goes well beyond (C08 has no bound)
+                let depth = match rng.below(8) {
+                    0 | 1 => 200,
+                    2 => rng.range(250, 300),
+                    3 => rng.range(500, 700),
+                    _ => rng.range(1, 200),
+                };
                 docs.push(deep(&mut rng, depth));
                 label = "deep-nesting".into();
             } else {
@@ -341,7 +362,14 @@ pub fn run(ctx: &mut Ctx, c07: bool) {
     let caps = [0usize, 0, 1, 2, 3, 7, 64, 8192];
     for (docs, label) in cases {
         let cfg = if c07 {
-            RCfg { trim_text: rng.chance(1, 3), expand_empty: rng.chance(1, 3), check_end_names: !rng.chance(1, 3), bufcap: *rng.pick(&caps) }
+            RCfg {
+                trim_text: rng.chance(1, 3),
+                expand_empty: rng.chance(1, 3),
+                check_end_names: !rng.chance(1, 3),
+                bufcap: *rng.pick(&caps),
+                allow_unmatched_ends: rng.chance(1, 4),
+                skip_events: if rng.chance(1, 6) { rng.range(1, 3) } else { 0 },
+            }
         } else {
             RCfg { bufcap: if rng.chance(1, 4) { *rng.pick(&caps) } else { 0 }, ..RCfg::default() }
         };
@@ -370,6 +398,7 @@ pub fn run(ctx: &mut Ctx, c07: bool) {
         hist.add(&format!("verdict:{}", b.result.class()));
         if c07 {
             hist.add(&format!("reader:trim={},expand={},check_end={},cap={}", cfg.trim_text, cfg.expand_empty, cfg.check_end_names, cfg.bufcap));
+            hist.add(&format!("reader:allow_unmatched_ends={},caller_read_first={}", cfg.allow_unmatched_ends, cfg.skip_events));
         }
         for (o, r) in &b.renders {
             if let Err(m) = r {
@@ -402,7 +431,7 @@ pub fn run(ctx: &mut Ctx, c07: bool) {
     ctx.meta.push(("distinct_nontrivial", J::N(distinct.len() as i64)));
     ctx.meta.push(("rule", json::s(format!(
         "byte strings: exhaustive truncation of small documents (alone and as an extension); every sequence of up to {} markup tokens out of 13 (start / end / empty tags of two names, text, comment, CDATA, an unquoted attribute, a duplicated attribute, an invalid UTF-8 byte), alone and (up to 3 tokens) as an extension; {} generated inputs = valid serialisations of random DOMs with 0-3 structured damages (unquoted / duplicated / value-less attributes, invalid UTF-8 in name / key / text / CDATA / comment / value, mismatched / extra / missing end tags, truncation, markup noise, bit flips, byte inserts/deletes, quote damage, trailing content), 5% raw random bytes, 5% nesting up to depth 200; a third as (document, extension) pairs; {}; non-trivial = some document of at least 4 bytes, distinct by bytes",
-        max_len, n, if c07 { "reader configuration drawn per case from trim_text x expand_empty_elements x check_end_names x BufReader capacity {slice,1,2,3,7,64,8192}; every Ok result is rendered" } else { "default reader configuration (a quarter through BufReaders of capacity 1..8192)" }))));
+        max_len, n, if c07 { "reader configuration drawn per case from trim_text x expand_empty_elements x check_end_names x allow_unmatched_ends x BufReader capacity {slice,1,2,3,7,64,8192}, a sixth of the readers handed over after the caller has read 1-3 events itself; every Ok result is rendered" } else { "default reader configuration (a quarter through BufReaders of capacity 1..8192)" }))));
     ctx.meta.push(("exhaustive_part", json::s(format!("all sequences of 1..{} tokens over the 13-token markup alphabet (and of 1..3 tokens as an extension of <a><b x=\"1\"/>t</a>); all truncations of the small documents", max_len))));
     ctx.meta.push(("histogram", hist.json()));
     ctx.meta.push(("samples", J::A(samples)));
